@@ -199,9 +199,10 @@ class Viol:
 def partA(ctx, res, V, only=None):
     rng = ctx.rng
     thorough = ctx.tier == "thorough"
-    magics = [0x7F, 0x7E, 0x00, 0xFF, 0x7D, 0x80, 0xFE]
+    magics = [0x7F, 0x7E, 0x00, 0xFF, 0x80]
     reserved = [(0, 0), (0, 1), (1, 0), (255, 255)]
-    strat = [(o1, o2, r3, r4) for o1 in magics for o2 in range(256) for (r3, r4) in reserved]
+    strat = [(o1, o2, r3, r4) for o1 in magics for o2 in range(256)
+             for (r3, r4) in (reserved if o1 == 0x7F else [(0, 0), (255, 255)])]
     full = []
     if thorough:
         for o1 in range(256):
@@ -1077,6 +1078,24 @@ def partE(ctx, res, V, peers):
     obs = "abort" if st["tlog"] else "carryOn"
     if obs != m[0] or len([e for e in st["events"] if e[0] == "msg"]) != 2:
         res.correspondence_breaks.append({"stream": "E: CancelledError ladder (twisted)", "model": m[0], "observed": obs, "state": st})
+    # observation (reported, not a violation of the statement): frames that follow a failing frame in the SAME read are
+    # still handed to the session after the transport was aborted (the framing loop does not look at the transport)
+    for fw in FWS:
+        P = peers[fw]
+        good = enc_frame(0, b'[16,1,{},"com.example.topic",["x"]]')
+        bad = enc_frame(0, b"{[garbage")
+        n = []
+        for chunks in ([good + bad + good + good], [good + bad, good + good]):
+            pid = P.new_id()
+            rs_handshake(P, pid, "server", ["json"], 15, "json")
+            st = P.call([{"op": "rx", "id": pid, "chunks": [c.hex() for c in chunks]}])[0]
+            n.append(len([e for e in st["events"] if e[0] == "msg"]))
+            P.call([{"op": "drop", "id": pid}])
+        res.evaluations += 2
+        if n[0] != n[1]:
+            res.count(f"E:observation:{fw}:messages-after-abort-in-same-read")
+            res.notes.append(f"observation ({fw} RawSocket): [valid][garbage][valid][valid] in one read delivers {n[0]} messages "
+                             f"(abort after the 2nd frame, the rest of the read is still processed); cut after the garbage frame: {n[1]}")
     # a session that was never attached is never told; an attached one exactly once
     for fw in FWS:
         P = peers[fw]
@@ -1123,8 +1142,8 @@ def partF(ctx, res, V, peers):
 def run(ctx):
     res = core.Result()
     res.rule = (
-        "A: RawSocket handshakes = (octet1, octet2, reserved) with octet1 in {7F,7E,00,FF,7D,80,FE} (thorough: all 256) x all 256 octet2 x reserved in "
-        "{0000,0001,0100,ffff} x {server,client} x {twisted,asyncio} x 2 serializer configurations, each cut into reads by all 8 compositions of 4 plus 4 "
+        "A: RawSocket handshakes = (octet1, octet2, reserved) with octet1 in {7F,7E,00,FF,80} (thorough: all 256) x all 256 octet2 x reserved in "
+        "{0000,0001,0100,ffff} (quick, wrong magic: {0000,ffff}) x {server,client} x {twisted,asyncio} x 2 serializer configurations, each cut into reads by all 8 compositions of 4 plus 4 "
         "patterns with empty reads (thorough full table: 5 rotating patterns); expected from driver rs.hs (model) and rs.spec (Spec). "
         "B: random frame streams after a (mostly valid) handshake, random segmentation incl. empty and 1-octet reads; model rs.conn; independent Python "
         "expectation of the delivered strings. C: exponents n=0..7 (thorough 0..15) x serializers x roles x frameworks x lengths {2^n-1,2^n,2^n+1}, frames "
@@ -1164,3 +1183,22 @@ def run(ctx):
     res.traces_validated = res.evaluations
     res.notes.append("violations seen (key: occurrences): " + json.dumps(V.seen, sort_keys=True))
     return res
+
+
+SELFTEST = """
+Mutation self-test (scratch copy of /repo/src, `VERIF_REPO=/tmp/c13mut/repo_<name> ./check C13 --tier quick`, run in a scratch
+copy of this tree so that the mutated Generated/*.lean does not disturb the shared build; /repo itself never edited):
+
+ M1 twisted server also accepts magic 0x7E          exit 1  rs-hs/twisted/server/bad-magic/session-attached (handshake 7e010000); translator: Shape
+ M2 asyncio max_length_send = 2**(lexp+8)            exit 1  rs-hs/asyncio/{server,client}/valid-handshake-mishandled (7f010000), rs-send/asyncio/*/maxsend
+ M3 twisted send(): length guard dropped            exit 1  rs-send/twisted/over-limit-emitted (513 octets to a peer that announced 512); translator: Shape
+ M4 server iterates reversed(request.protocols)     exit 1  ws-neg/not-first-common-in-client-order (client [json,msgpack] -> 'wamp.2.msgpack')
+ M5 asyncio reserved-octet check removed            exit 1  rs-hs/asyncio/{server,client}/reserved-nonzero/session-attached (7f010001)
+ M6 onMessage ProtocolError -> CLOSE_STATUS_NORMAL  exit 1  corrupt/ws-close/{flip,garbage,truncated,nonlist,badtype,empty,raise,outofphase}/status-1000-instead-of-1002;
+                                                            full flow: Generated wsCloseProtocolError=1000, `close_code_mapping` no longer checks (proof build failed)
+ M7 asyncio `frame_length >= self.max_length`       exit 1  rs-recv/asyncio/at-limit-refused, rs-deliver/*->asyncio/at-limit-not-delivered
+ M8 twisted client: serializer of the reply unchecked exit 1 rs-hs/twisted/client/unsupported-serializer/session-attached (7f020000)
+ M9 twisted accumulator takes one octet too few     exit 1  rs-hs/twisted/server/segmentation-dependent (+ 19 consequences)
+ H1 harmless: three writes joined into one, `_magic` renamed, two independent assignments of parse_handshake swapped
+                                                    exit 0  no VIOLATION line, translator unaffected
+"""
